@@ -688,6 +688,8 @@ class Epoch(object):
                         return month
                 else:
                     raise ValueError("Invalid value for the input month")
+        else:
+            raise TypeError("Invalid input type")
 
     @staticmethod
     def is_leap(year):
